@@ -238,7 +238,17 @@ func (f *folder) expr(fr *foldFrame, e ast.Expr) cval {
 			if _, ok := unparen(x.X).(*ast.CompositeLit); ok {
 				return &cPtr{To: f.expr(fr, x.X)}
 			}
-			f.fail(x.Pos(), "address of a non-literal is not folded")
+			// the address of a local struct variable (`h := row.header; m[k] = &h`): a pointer to that
+			// variable's own copy
+			if id, ok := unparen(x.X).(*ast.Ident); ok {
+				obj := info.Uses[id]
+				if p, ok := fr.vars[obj]; ok {
+					if s, isStruct := (*p).(*cStruct); isStruct {
+						return &cPtr{To: s}
+					}
+				}
+			}
+			f.fail(x.Pos(), "address of something that is neither a literal nor a local struct variable is not folded")
 		case token.SUB:
 			if n, ok := f.expr(fr, x.X).(cInt); ok {
 				return cInt{wrapInt(-n.V, info.TypeOf(x))}
